@@ -25,6 +25,10 @@ FUNCTIONS = [
     'circus.watcher:Watcher.reap_process',        # while loop polling waitpid: no variant (known finding F-1)
     'circus.watcher:Watcher.spawn_process',       # retry loop: variant max_retry - nb_tries (fails for -1: F-24)
     'circus.controller:Controller.dispatch',      # a non-waiting request is answered before dispatch returns
+    # the escalation that bounds a stop: SIGKILL is sent whatever the before_signal hook says
+    'circus.watcher:Watcher.send_signal',
+    'circus.watcher:Watcher.send_signal_process',
+    'circus.watcher:Watcher.call_hook',
 ]
 REQUIRE_VARIANTS = True
 EXCLUDE_CLAUSES = ['post[accounted]:Watcher.spawn_process']
